@@ -347,3 +347,48 @@ package global
 //@   requires i != nil && m != nil
 //@   assert@call Float64ObservableGauge#1 : $arg0 == m && $arg1 == i.name && $arg2 === i.opts
 //@   assert@call Store#* : $arg1 == ctr && err == nil
+
+// unwrapCallback: every invocation of a wrapped callback gets its OWN observer wrapper, allocated by that invocation and carrying
+// the observer the SDK passed to that invocation - two overlapping collections (two readers) never share one
+//@ func unwrapCallback$1(ctx context.Context, obs metric.Observer) (err error)
+//@   prop C16
+//@   overflow assumed
+//@   unchecked frame,no-panic the user callback is a function value
+//@   assert@call f#1 : $arg0 == ctx && typeis($arg1, "*unwrapObs") && fresh(cast($arg1, "*unwrapObs")) && cast($arg1, "*unwrapObs").obs == obs
+
+// ======================================================================== C16 installation (state.go)
+// SetMeterProvider / SetTracerProvider: unless the provider being installed is the default delegating provider itself, the call
+// goes through the once-only delegation exactly once and THEN publishes the provider (so that by the time installation returns the
+// placeholders handed out earlier forward to it); the once-body delegates the provider that was current at entry to the very
+// provider being installed
+//@ ghost var instOnce int
+//@ func SetMeterProvider(mp metric.MeterProvider)
+//@   prop C16
+//@   requires mp != nil
+//@   overflow assumed
+//@   unchecked frame,no-panic atomic.Value, sync.Once body, logging
+//@   modifies ghost instOnce
+//@   ghost@entry : instOnce = 0
+//@   ghost@call Once.Do#* : instOnce = instOnce + 1
+//@   assert@call Store#* : instOnce == 1 && typeis($arg1, "meterProviderHolder") && cast($arg1, "meterProviderHolder").mp == mp
+//@   assert@call meterProvider.setDelegate#1 : $arg1 == mp && typeis(current, "*meterProvider") && $arg0 == cast(current, "*meterProvider")
+//@ func SetTracerProvider(tp trace.TracerProvider)
+//@   prop C16
+//@   requires tp != nil
+//@   overflow assumed
+//@   unchecked frame,no-panic atomic.Value, sync.Once body, logging
+//@   modifies ghost instOnce
+//@   ghost@entry : instOnce = 0
+//@   ghost@call Once.Do#* : instOnce = instOnce + 1
+//@   assert@call Store#* : instOnce == 1 && typeis($arg1, "tracerProviderHolder") && cast($arg1, "tracerProviderHolder").tp == tp
+//@   assert@call tracerProvider.setDelegate#1 : $arg1 == tp && typeis(current, "*tracerProvider") && $arg0 == cast(current, "*tracerProvider")
+// the current global providers are read from atomic.Value holders (not modelled): a deterministic read; a default delegating
+// provider found there is a real (non-nil) object - it is allocated once at package initialisation (assumed)
+//@ func MeterProvider() (mp metric.MeterProvider)
+//@   prop -
+//@   trusted "atomic.Value holder read; the default *meterProvider stored at initialisation is non-nil"
+//@   ensures typeis(mp, "*meterProvider") ==> cast(mp, "*meterProvider") != nil
+//@ func TracerProvider() (tp trace.TracerProvider)
+//@   prop -
+//@   trusted "atomic.Value holder read; the default *tracerProvider stored at initialisation is non-nil"
+//@   ensures typeis(tp, "*tracerProvider") ==> cast(tp, "*tracerProvider") != nil
